@@ -6,3 +6,10 @@ open Comrak.C18
 #print axioms off_has_no_sourcepos
 #print axioms html_sourcepos_only_adds
 #print axioms state_independent_of_sourcepos
+#print axioms xml_attrs_sourcepos_only_adds
+#print axioms xml_sourcepos_only_adds
+#print axioms xml_sourcepos_only_adds_bytes
+#print axioms xml_sourcepos_bytes_inserted
+#print axioms xml_off_has_no_sourcepos
+#print axioms cm_ignores_sourcepos
+#print axioms cm_ignores_positions
